@@ -3,7 +3,7 @@
 # if everything holds, stores it as /verif/seeded/C19-1/{patch.diff,demo.py,meta.json}
 id="$1"; k="$2"; ID=$(echo $id | tr a-z A-Z)
 O=/tmp/seed7_${id}_out; W=/tmp/confirm_${id}_$k.$$
-run() { env PYTHONPATH="$W:/tmp/seed_env/stubs" PROTOCOL_BUFFERS_PYTHON_IMPLEMENTATION=python PYTHONHASHSEED=0 PYTHONDONTWRITEBYTECODE=1 timeout 900 /venv/bin/python -W ignore "$O/demo$k.py" "$W" > /tmp/confirm_${id}_$k.log 2>&1; }
+run() { env PYTHONPATH="$W:/verif/harness/stubs" PROTOCOL_BUFFERS_PYTHON_IMPLEMENTATION=python PYTHONHASHSEED=0 PYTHONDONTWRITEBYTECODE=1 timeout 900 /venv/bin/python -W ignore "$O/demo$k.py" "$W" > /tmp/confirm_${id}_$k.log 2>&1; }
 git -C /repo worktree add -q --detach "$W" HEAD || exit 2
 run; c=$?
 ( cd "$W" && git apply "$O/patch$k.diff" ) || { echo "$ID-$k: patch does not apply to HEAD"; git -C /repo worktree remove --force "$W"; exit 1; }
